@@ -236,7 +236,10 @@ impl Dump {
             Expr::TypeBindings(..) => self.fail("type-binding"),
             Expr::Do(..) => self.fail("do"),
             Expr::MacroExpansion { .. } => self.fail("macro-expansion"),
-            Expr::Annotated(..) => self.fail("annotated"),
+            Expr::Annotated(inner, _) => {
+                let i = self.expr(inner);
+                format!("(A {} {})", sp, i)
+            }
         }
     }
 }
@@ -371,7 +374,7 @@ fn run_variant(cx: &mut Ctx, origin: &str, vname: &str, src: &str) {
             .iter()
             .any(|(a, b)| *a <= pos && pos <= b + 1);
         let fp = if class == "unwrap-none" && in_zone && loc.contains("completion") {
-            // every position-search based query fails the same way here
+            // (fixed by 3a63e38; kept so that the violation is reported under its name if it returns)
             "panic:completion:empty-tuple-pattern".to_string()
         } else if class == "unimplemented" && inf.annotated > 0 {
             // `Expr::Annotated(..) => unimplemented!()` (lib.rs:723), the same for every query
@@ -524,7 +527,10 @@ fn run_variant(cx: &mut Ctx, origin: &str, vname: &str, src: &str) {
                 || (off == *a && off < *b && ws_at(off as i64 - 2))
                 || (off == *b && *a < off && ws_at(off as i64 - 1))
         };
-        if judged {
+        if judged && inf.disordered {
+            out.count("ident-offsets(sibling spans out of order after error recovery; not judged)");
+        }
+        if judged && !inf.disordered {
             let (a, b, typ, what) = covering[0];
             out.count("ident-offsets");
             match &found_type {
@@ -576,6 +582,10 @@ fn run_variant(cx: &mut Ctx, origin: &str, vname: &str, src: &str) {
         let soff = off.clamp(1, len + 1).clamp(root_lo, root_hi);
         let field_ctx = inf.field_ctx.iter().any(|(a, b)| *a <= soff && soff <= *b);
         for (which, names) in [("suggest", &sugg_default), ("suggest-nofilter", &names_nofilter)] {
+            if inf.disordered {
+                out.count("scope-offsets(sibling spans out of order after error recovery; not judged)");
+                continue;
+            }
             if field_ctx {
                 // field access / record pattern: the suggestions are fields of a type, not names
                 // in scope; not judged
@@ -643,11 +653,11 @@ const CORPUS: &[&str] = &[
     "f []",
     "[]",
     "let x = f [] in x",
-    // D12: unit pattern
+    // D12 (fixed 3a63e38): unit pattern
     "let () = () in 1",
     "match () with\n| () -> 1",
     "\\x -> match x with\n    | (a, ()) -> a",
-    // D13: the checker wraps an expression in `Expr::Annotated`
+    // D13 (fixed 924e3ee): the checker wraps an expression in `Expr::Annotated`
     "[2, \\g -> g, let x = True in 561]",
     // cursor on a keyword before/after a binding construct
     "let a = 1 in let b = 2 in b",
